@@ -1,0 +1,44 @@
+//go:build verif
+
+// Package verifbridge is compiled only with the build tag "verif". It re-exports
+// the parts of the internal bitswap client message queue that the external
+// verification harness needs (the harness lives outside this module tree and
+// cannot import an internal package).
+package verifbridge
+
+import (
+	"context"
+	"time"
+
+	"github.com/ipfs/boxo/bitswap/client/internal/messagequeue"
+	bsnet "github.com/ipfs/boxo/bitswap/network"
+	peer "github.com/libp2p/go-libp2p/core/peer"
+)
+
+type (
+	MessageQueue           = messagequeue.MessageQueue
+	MessageNetwork         = messagequeue.MessageNetwork
+	DontHaveTimeoutManager = messagequeue.DontHaveTimeoutManager
+	MessageSender          = bsnet.MessageSender
+	MessageSenderOpts      = bsnet.MessageSenderOpts
+)
+
+// NewMessageQueue builds a message queue with a custom maximum message size.
+// dhTimeoutMgr may be nil (DONT_HAVE timeout simulation disabled).
+func NewMessageQueue(
+	ctx context.Context,
+	p peer.ID,
+	network MessageNetwork,
+	maxMsgSize int,
+	sendErrorBackoff time.Duration,
+	maxValidLatency time.Duration,
+	dhTimeoutMgr DontHaveTimeoutManager,
+) *MessageQueue {
+	return messagequeue.VerifNewMessageQueue(ctx, p, network, maxMsgSize, sendErrorBackoff, maxValidLatency, dhTimeoutMgr)
+}
+
+// SetBetweenSectionsHook installs (or, with nil, removes) the callback that the
+// send loop runs between the two critical sections of extractOutgoingMessage.
+func SetBetweenSectionsHook(f func(mq *MessageQueue)) {
+	messagequeue.VerifBetweenSections = f
+}
